@@ -1,6 +1,8 @@
 package main
 
 import (
+	"time"
+	"verif/shim/vclock"
 	"verif/shim/vsched"
 	"bytes"
 	"context"
@@ -47,6 +49,7 @@ type IdP struct {
 // CodeBehaviour scripts the token endpoint for one code.
 type CodeBehaviour struct {
 	Refuse      bool
+	Fault       string // "500" | "transport" | "garbage": the token endpoint is in trouble for this code
 	NoIDToken   bool
 	IDToken     string
 	AccessToken string
@@ -120,6 +123,12 @@ func (p *IdP) respond(r *http.Request) (int, any, error) {
 			return js(500, map[string]any{"error": "server_error"})
 		case "unknown":
 			return js(401, map[string]any{"error": "invalid_token"})
+		case "slow-unknown":
+			// the provider takes half an hour (of the harness clock) to say that it does not know the token:
+			// every time-out the caller may have set fires before the answer comes
+			vclock.Advance(30 * time.Minute)
+			time.Sleep(150 * time.Millisecond)
+			return js(401, map[string]any{"error": "invalid_token"})
 		}
 		if p.Revoked[tok] || !strings.HasPrefix(tok, "at-") {
 			return js(401, map[string]any{"error": "invalid_token"})
@@ -132,6 +141,14 @@ func (p *IdP) respond(r *http.Request) (int, any, error) {
 		cb, ok := p.Codes[vals.Get("code")]
 		if !ok || cb.Refuse {
 			return js(400, map[string]any{"error": "invalid_grant"})
+		}
+		switch cb.Fault {
+		case "500":
+			return js(500, map[string]any{"error": "server_error"})
+		case "transport":
+			return 0, nil, errors.New("scripted transport: connection reset by peer")
+		case "garbage":
+			return js(200, "this is not a token response")
 		}
 		out := map[string]any{"access_token": cb.AccessToken, "token_type": "Bearer", "expires_in": 3600}
 		if !cb.NoIDToken {
